@@ -10,14 +10,14 @@ Definition zphase (pc : pcl) : bool := match pc with R6 | R6b | V6 => true | _ =
 Lemma micro_zphase c me A S o :
   micro c me A S = Some o -> ctl_ok A = true -> zphase (a_pc (o_a o)) = true ->
   a_sid (o_a o) = a_sid A /\ r_p (a_r (o_a o)) = r_p (a_r A) /\
-  ((a_pc A = R5 \/ a_pc A = V5) /\ writers S = 0 \/
+  ((a_pc A = R5 \/ a_pc A = V5) /\ writers S = 0 /\ a_pc (o_a o) <> R6b \/
    (a_pc A = R6 /\ a_pc (o_a o) = R6b /\ r_single (a_r A) = false /\ rm_tag (gtag S (sl c (r_p (a_r A)))) <> r_p (a_r A))).
 Proof.
   intros H Q. destruct A as [role alive multi sid tok pc stack R notified parked].
   unfold gtag.
   destruct pc; micro_cases H; cbn [o_a]; pre_case Q Q1 Q2 Q3; eqb_hyps;
     first [ solve [intros X; discriminate X]
-          | solve [intros _; split; [reflexivity|split; [reflexivity|left; split; [first [left; reflexivity|right; reflexivity]|assumption]]]]
+          | solve [intros _; split; [reflexivity|split; [reflexivity|left; split; [first [left; reflexivity|right; reflexivity]|split; [assumption|discriminate]]]]]
           | solve [intros _; split; [reflexivity|split; [reflexivity|right; repeat split; auto]]]
           | try split_frame Q1 Q2;
             first [ solve [intros X; discriminate X] ] ].
